@@ -57,7 +57,7 @@ RULE = ('E2 explicit-state exploration of library state: events (65: '
         '/ .arguments, drop the frame, decode on - as an event with '
         'its own invariant (nothing kept changes, nothing is handed '
         'out twice).')
-BOUNDS = {'quick': {'history_depth': '2 + all a;b;a + depth 3 over 16 core events', 'threads': 2, 'preemptions': '2 (1 for the header and 3-thread harnesses)'},
+BOUNDS = {'quick': {'history_depth': '2 + all a;b;a + depth 3 over 16 core events', 'threads': 2, 'preemptions': '2 (3 for body encode || method encode, 1 for the header and 3-thread harnesses)'},
           'thorough': {'history_depth': 3, 'threads': '2 and 3',
                        'preemptions': '3 (2 for the header and 3-thread '
                        'harnesses)'}}
@@ -885,7 +885,7 @@ HARNESSES = [
         _call('marshal ContentBody ch 7', lambda p: p.frame.marshal(
             p.body.ContentBody(b'payload' * 40), 7).hex()),
         _call('marshal Basic.Ack ch 1', lambda p: p.frame.marshal(
-            p.commands.Basic.Ack(9, False), 1).hex())], 2, 3),
+            p.commands.Basic.Ack(9, False), 1).hex())], 3, 3),
     ('header encode || header decode', [
         _call('marshal ContentHeader', lambda p: p.frame.marshal(
             p.header.ContentHeader(0, 3, p.commands.Basic.Properties(
